@@ -363,6 +363,12 @@ func c02Request(sp *spec.Spec, ex *rt.Exchange) *Verdict {
 			// union's Value text (union.go): the difference lies inside such a value
 			tags = append(tags, "union-usertype-value-design-names")
 		}
+		if diffClass(d) == "lost" && lostInLaterDeclaredType(sp, d.Path) {
+			// listed goa defect (found by C01): a user type declared after a type that inherits, through Reference, an
+			// attribute reaching it is emitted as an EMPTY struct in the service package; when the code still compiles
+			// its attributes are silently dropped
+			tags = append(tags, "reference-inherits-type-declared-later")
+		}
 		v.add(mkKey("mismatch", "payload-mismatch", fmt.Sprintf("%s:%s%s:%s:%s", loc, kind, nested, diffClass(d), valClass(d.Want)), tags), "payload attribute differs at %s", d.String())
 	}
 	return v
@@ -821,4 +827,70 @@ func payloadKind(sp *spec.Spec, m *spec.Method) string {
 		return "none"
 	}
 	return kindOf(sp, m.Payload.Type)
+}
+
+// lostInLaterDeclaredType reports whether the design holds the trigger of the listed "empty struct of a later declared
+// type" defect (a Reference-inherited attribute whose type reaches a user type declared later) AND the last step of
+// path names an attribute of one of the later declared types so reached.
+func lostInLaterDeclaredType(sp *spec.Spec, path string) bool {
+	last := path
+	if i := strings.LastIndex(path, "."); i >= 0 {
+		last = path[i+1:]
+	}
+	if j := strings.IndexAny(last, "[{"); j >= 0 {
+		last = last[:j]
+	}
+	pos := map[string]int{}
+	for i, t := range sp.Types {
+		pos[t.Name] = i
+	}
+	later := map[string]bool{}
+	var reach func(t *spec.Type, after int, seen map[string]bool)
+	reach = func(t *spec.Type, after int, seen map[string]bool) {
+		if t == nil {
+			return
+		}
+		if t.Kind == spec.Ref {
+			if seen[t.Ref] {
+				return
+			}
+			seen[t.Ref] = true
+			if pos[t.Ref] > after {
+				later[t.Ref] = true
+			}
+			if ut := sp.Type(t.Ref); ut != nil {
+				reach(ut.Def, after, seen)
+			}
+			return
+		}
+		for _, a := range t.Attrs {
+			reach(a.Type, after, seen)
+		}
+		if t.Elem != nil {
+			reach(t.Elem.Type, after, seen)
+		}
+		if t.Key != nil {
+			reach(t.Key.Type, after, seen)
+		}
+	}
+	for i, t := range sp.Types {
+		if t.Def == nil {
+			continue
+		}
+		for _, a := range t.Def.Attrs {
+			if a.Inherit == "reference" {
+				reach(a.Type, i, map[string]bool{})
+			}
+		}
+	}
+	for name := range later {
+		if ut := sp.Type(name); ut != nil && ut.Def != nil {
+			for _, a := range ut.Def.Attrs {
+				if spec.Norm(a.Name) == spec.Norm(last) {
+					return true
+				}
+			}
+		}
+	}
+	return false
 }
